@@ -13,13 +13,14 @@ rm -rf "$S"; mkdir -p /root/scratch "$OUT"
 git -C /repo worktree prune
 git -C /repo worktree add -q --detach "$S" HEAD || exit 2
 put_demo() {
+  if [ -d "$S/$DEST" ]; then EXISTED=1; else EXISTED=0; fi
   mkdir -p "$S/$DEST"
   COPIED=""
   for f in "$SRC/$L.demo"/*; do [ "$(basename "$f")" = README ] || { cp -r "$f" "$S/$DEST/"; COPIED="$COPIED $(basename "$f")"; }; done
   if [ "$DEST" != "." ] && [ -d "$S/$DEST/$(basename "$DEST")" ]; then cp -r "$S/$DEST/$(basename "$DEST")"/* "$S/$DEST/"; rm -rf "$S/$DEST/$(basename "$DEST")"; fi
 }
 del_demo() {
-  if [ "$DEST" = "." ]; then for f in $COPIED; do rm -rf "$S/$f"; done; else rm -rf "$S/$DEST"; fi
+  if [ "$EXISTED" = 1 ]; then for f in $COPIED; do rm -rf "$S/$DEST/$f"; done; else rm -rf "$S/$DEST"; fi
 }
 put_demo
 echo "== demo on the unchanged tree"
@@ -31,6 +32,11 @@ git -C "$S" apply "$SRC/$L.patch.diff" || { echo "patch does not apply"; exit 3;
 (cd "$S" && go build ./... ) > "$OUT/build.log" 2>&1; RB=$?
 echo "build rc=$RB"
 (cd "$S" && go test -vet=off -count=1 ./... ) > "$OUT/suite.log" 2>&1; RS=$?
+if [ $RS != 0 ]; then   # timing-sensitive tests (index/lock) flake on a loaded machine: re-run the failed packages alone, twice
+  FP=$(grep "^FAIL\s" "$OUT/suite.log" | awk '{print $2}' | sort -u | tr '\n' ' ')
+  echo "suite failed in: $FP -- re-running those packages"
+  (cd "$S" && go test -vet=off -count=1 $FP && go test -vet=off -count=1 $FP) >> "$OUT/suite.log" 2>&1 && RS=0
+fi
 echo "suite rc=$RS"; grep -v "^ok\|no test files" "$OUT/suite.log" | head -5
 put_demo
 echo "== demo with the change"
